@@ -68,25 +68,38 @@ def fmt_supports(fmt, w: World, t, top=True, in_key=False):
     return False
 
 
-def has_enum_key(w: World, t, seen=None):
+def has_enum_key(w: World, t, seen=None, conv=None):
+    """an enum-keyed mapping position; with `conv` (finding F30's exact shape): one whose VALUES need a hook of their own,
+    so that the msgspec converter generates a mapping hook which leaves the enum members in place as keys.  (When keys and
+    values both pass through, the whole mapping is handed to msgspec.to_builtins, which converts enum keys: no finding.)"""
     seen = set() if seen is None else seen
     k = t[0]
     if k == "dict":
         kt = t[1]
         while kt[0] in ("newtype", "annot"):
             kt = kt[2] if kt[0] == "newtype" else kt[1]
-        return kt[0] == "enum" or has_enum_key(w, t[2], seen)
+        if kt[0] == "enum":
+            if conv is None:
+                return True
+            from cattrs.fns import identity
+            from msgspec import to_builtins
+            try:
+                if conv.get_unstructure_hook(w.to_py(t[2])) not in (identity, to_builtins):
+                    return True
+            except Exception:
+                return True
+        return has_enum_key(w, t[2], seen, conv)
     if k in ("list", "tuphom", "set", "fset", "opt", "annot"):
-        return has_enum_key(w, t[1], seen)
+        return has_enum_key(w, t[1], seen, conv)
     if k == "newtype":
-        return has_enum_key(w, t[2], seen)
+        return has_enum_key(w, t[2], seen, conv)
     if k == "tuple":
-        return any(has_enum_key(w, x, seen) for x in t[1])
+        return any(has_enum_key(w, x, seen, conv) for x in t[1])
     if k in ("class", "self"):
         if t[1] in seen:
             return False
         seen.add(t[1])
-        return any(f.type is not None and has_enum_key(w, f.type, seen) for f in w.specs[t[1]].fields)
+        return any(f.type is not None and has_enum_key(w, f.type, seen, conv) for f in w.specs[t[1]].fields)
     return False
 
 
@@ -108,8 +121,17 @@ def check_c16(v: Verdict, n_worlds: int):
                 convs[f + "+options"] = m.make_converter(**kw)
             except Exception:
                 pass
-        for _ in range(4):
-            t = ("class", rng.randrange(len(w.pycls))) if rng.random() < 0.6 else L.gen_type(w, 3, len(w.pycls))
+        # four random types, then two enum-keyed mappings whose values pass through (the formats' own encoders see the keys)
+        targeted = []
+        for ei, e in enumerate(w.enums):
+            if all(type(m.value) is str for m in e):
+                d = ("dict", ("enum", ei), ("prim", rng.choice(["int", "str", "float"])), 0)
+                targeted += [d, rng.choice([("list", d, 0), ("opt", d), ("dict", ("prim", "str"), d, 0)])]
+        for ti in range(4 + min(2, len(targeted))):
+            if ti >= 4:
+                t = targeted[ti - 4]
+            else:
+                t = ("class", rng.randrange(len(w.pycls))) if rng.random() < 0.6 else L.gen_type(w, 3, len(w.pycls))
             L.type_kinds(w, t, hist["kinds"])
             for _ in range(2):
                 try:
@@ -134,7 +156,7 @@ def check_c16(v: Verdict, n_worlds: int):
                             v.violation("dumps failed on a supported value", {**desc, "raised": repr(e)[:300]})
                         continue
                     except Exception as e:
-                        if f == "msgspec" and "str-like or number-like keys" in str(e) and has_enum_key(w, t):
+                        if f == "msgspec" and "str-like or number-like keys" in str(e) and has_enum_key(w, t, None, conv):
                             hist["f30_hits"] = hist.get("f30_hits", 0) + 1
                             v.finding("F30", "msgspec converter: enum members left as mapping keys", {**desc, "raised": repr(e)[:200]})
                         else:
